@@ -423,10 +423,58 @@ func (g *Gen) RandomBytes(n int) string {
 		case 0:
 			b[i] = byte(g.R.Intn(256))
 		case 1:
-			b[i] = "*_`[]()<>&\\!#-+>\n\t\r ~=1.\"'"[g.R.Intn(28)]
+			const al = "*_`[]()<>&\\!#-+>\n\t\r ~=1.\"'"
+			b[i] = al[g.R.Intn(len(al))]
 		default:
 			b[i] = byte(32 + g.R.Intn(95))
 		}
 	}
 	return string(b)
+}
+
+// exported helpers for the kernel generators
+
+func (g *Gen) Pick(xs ...string) string { return g.pick(xs...) }
+func (g *Gen) Plain(n int) string       { return g.plain(n) }
+func (g *Gen) LinkTail() string         { return g.linkTail() }
+
+var tailSoup = []string{"(", ")", "<", ">", "\"", "'", " ", "  ", "\n", "\t", "\\", "\\(", "\\)", "\\\"", "\\a", "&", "&amp;", "&#40;", "&#x29;", "&NewLine;",
+	"&quote;", "&nope;", "&#", ";", "a", "b/c", "é", "\x01", "\x7f", "*", "[", "]"}
+
+// TailSoup is a soup over the alphabet that matters to parseLinkTail.
+func (g *Gen) TailSoup(n int) string {
+	var sb strings.Builder
+	for i := 0; i < n; i++ {
+		sb.WriteString(tailSoup[g.R.Intn(len(tailSoup))])
+	}
+	return sb.String()
+}
+
+// CharRefish returns text that starts like a character reference.
+func (g *Gen) CharRefish() string {
+	digits := func(al string, n int) string {
+		var sb strings.Builder
+		for i := 0; i < n; i++ {
+			sb.WriteByte(al[g.R.Intn(len(al))])
+		}
+		return sb.String()
+	}
+	var s string
+	switch g.R.Intn(8) {
+	case 0:
+		s = "&" + g.pick("lt", "gt", "amp", "apos", "quote", "quot", "Tab", "NewLine", "nbsp", "copy", "x", "") + g.pick(";", ";", "", " ;")
+	case 1:
+		s = "&#" + digits("0123456789", g.R.Intn(9)) + g.pick(";", ";", "", "x;")
+	case 2:
+		s = "&#" + g.pick("x", "X") + digits("0123456789abcdefABCDEF", g.R.Intn(8)) + g.pick(";", ";", "", "g;")
+	case 3:
+		s = "&#" + g.pick("0", "00", "x0", "55296", "xD800", "xDFFF", "1114111", "1114112", "x10FFFF", "x110000", "9999999", "xFFFFFF", "65533", "128", "2047", "2048", "65535", "65536") + ";"
+	case 4:
+		s = "&" + digits("abcXYZ019", 1+g.R.Intn(12)) + g.pick(";", "")
+	case 5:
+		s = g.pick("&", "&#", "&#x", "&;", "&#;", "&#x;", "a&amp;", "", "&&amp;")
+	default:
+		s = "&" + digits("ab1#xX;& ", g.R.Intn(8))
+	}
+	return s + g.pick("", "", " tail", ";")
 }
